@@ -169,3 +169,96 @@ def path_cases(draw, max_frames=12, max_atoms=4, min_frames=2, min_atoms=1, spec
 def int_shifts(shape, lo=-3, hi=3):
     n = int(np.prod(shape))
     return st.lists(st.integers(lo, hi), min_size=n, max_size=n).map(lambda v: np.array(v, int).reshape(shape).tolist())
+
+
+# --------------------------------------------------------------------------- hopping systems (sites + diffusers)
+DELTA = 1e-3  # guard band (Angstrom) around every radius: MDAnalysis' KD-tree works in float32
+
+RADIAL = ['deep', 'inner-edge', 'shell', 'outer-edge', 'just-outside']
+
+
+def radial_distance(cls, r, f):
+    ri = r * f
+    if cls == 'deep':
+        return 0.3 * ri
+    if cls == 'inner-edge':
+        return max(0.0, ri - 3 * DELTA)
+    if cls == 'shell':
+        return 0.5 * (ri + r) if r - ri > 8 * DELTA else max(0.0, ri - 3 * DELTA)
+    if cls == 'outer-edge':
+        return r - 3 * DELTA if r - ri > 8 * DELTA else max(0.0, ri - 3 * DELTA)
+    return r + 3 * DELTA
+
+
+def interstitials(matrix, site_frac, clearance):
+    """deterministic list of fractional points at least `clearance` away from every site"""
+    g = 5
+    pts = np.array([[(i + 0.37) / g, (j + 0.61) / g, (k + 0.13) / g] for i in range(g) for j in range(g) for k in range(g)])
+    d = oracle.min_image_dist(pts, site_frac, matrix).min(axis=1)
+    return pts[d >= clearance]
+
+
+@st.composite
+def hop_systems(draw, tier='quick', max_sites=6, max_diff=3, max_frames=10, lat_kw=None, labels=('A', 'B', 'C'), min_sites=1,
+                radius_modes=('float', 'dict'), framework=False, min_labels=1):
+    lat = draw(lattices(**(lat_kw or {})))
+    M = np.array(lat['matrix'])
+    wmin = float(oracle.perp_widths(M).min())
+    sites = draw(site_sets(M, n_min=min_sites, n_max=max_sites, min_sep=1.0, labels=labels))
+    if len(set(sites['labels'])) < min_labels:
+        labs = list(sites['labels'])
+        for i, lab in enumerate(labels[:min_labels]):
+            if i < len(labs):
+                labs[i] = lab
+        sites['labels'] = labs
+        assume(len(set(labs)) >= min_labels)
+    r_max = min((sites['sep'] - 0.3) / 2, 0.45 * wmin)
+    assume(r_max > 0.25)
+    mode = draw(st.sampled_from(list(radius_modes)))
+    r0 = draw(st.floats(0.2, r_max))
+    f = draw(st.sampled_from([1.0, 1.0, 0.9, 0.5, 0.25, draw(st.floats(0.05, 1.0))]))
+    if mode == 'dict':
+        radius = {lab: float(draw(st.floats(0.2, r_max))) for lab in sorted(set(sites['labels']))}
+    else:
+        radius = float(r0)
+    sf = np.array(sites['frac'])
+    rr = [radius[lab] if isinstance(radius, dict) else radius for lab in sites['labels']]
+    inter = interstitials(M, sf, max(rr) + 0.3)
+    T = draw(st.integers(2, max_frames))
+    Nd = draw(st.integers(1, max_diff))
+    dirs = unit_dirs()
+    Minv = np.linalg.inv(M)
+    path = np.zeros((T, Nd, 3))
+    plan = []
+    for a in range(Nd):
+        t = 0
+        col = []
+        while t < T:
+            s = draw(st.integers(-1, len(sf) - 1))
+            cls = draw(st.sampled_from(RADIAL))
+            d = draw(st.integers(0, 25))
+            dwell = draw(st.sampled_from([1, 1, 2, 3]))
+            for _ in range(dwell):
+                if t >= T:
+                    break
+                if s < 0 and len(inter):
+                    p = inter[d % len(inter)]
+                else:
+                    s_ = max(s, 0)
+                    dist = radial_distance(cls if s >= 0 else 'just-outside', rr[s_], f)
+                    p = (sf[s_] @ M + np.array(dirs[d]) * dist) @ Minv
+                path[t, a] = p - np.floor(p)
+                col.append([s, cls, d])
+                t += 1
+        plan.append(col)
+    case = {'lattice': lat, 'sites': {'frac': sites['frac'], 'labels': sites['labels']}, 'radius': radius, 'inner_fraction': float(f),
+            'diff': path.tolist(), 'plan': plan, 'time_step': 1e-15, 'temperature': draw(st.sampled_from([300.0, 700.0]))}
+    if framework:
+        nf = draw(st.integers(1, 4))
+        fsym = [draw(st.sampled_from(['S', 'P', 'O'])) for _ in range(nf)]
+        base = np.array([[draw(st.floats(0, 1, exclude_max=True)) for _ in range(3)] for _ in range(nf)])
+        n = T * nf * 3
+        u = np.array(draw(st.lists(st.floats(-0.02, 0.02), min_size=n, max_size=n))).reshape(T, nf, 3)
+        fw = base[None] + u
+        case['framework'] = {'symbols': fsym, 'coords': (fw - np.floor(fw)).tolist()}
+    return case
